@@ -438,3 +438,22 @@ def deepstrip(o):
         else:
             out.append(x)
     return tuple(out)
+
+
+def erase_callsites(o):
+    """Origins with the block index of calls removed: two reads through separate `Deref::deref(&x)` calls compare equal."""
+    if not isinstance(o, tuple) or not o:
+        return o
+    if o[0] == "call":
+        return ("call", o[1], tuple(erase_callsites(a) for a in o[2]))
+    if o[0] == "icall":
+        return ("icall", erase_callsites(o[1]), tuple(erase_callsites(a) for a in o[2]))
+    out = []
+    for x in o:
+        if isinstance(x, tuple) and x and isinstance(x[0], str):
+            out.append(erase_callsites(x))
+        elif isinstance(x, tuple):
+            out.append(tuple(erase_callsites(y) if isinstance(y, tuple) else y for y in x))
+        else:
+            out.append(x)
+    return tuple(out)
